@@ -1,105 +1,240 @@
 (** C05: the driver computes what the synchronous reading of the same function computes, for every program,
-    every assignment of outcomes and every arrival order. *)
+    every assignment of outcomes, every arrival order and every placement of cancellations. *)
 From Coq Require Import List Arith ZArith Bool Lia.
 From C05 Require Import Model.
 Import ListNotations.
 
+Lemma mem_In i l : mem i l = true <-> In i l.
+Proof.
+  unfold mem. rewrite existsb_exists. split.
+  - intros [j [Hj E]]. apply Nat.eqb_eq in E. subst. exact Hj.
+  - intros H. exists i. split; [exact H | apply Nat.eqb_refl].
+Qed.
+
+Lemma mem_false i l : mem i l = false <-> ~ In i l.
+Proof. rewrite <- mem_In. destruct (mem i l); split; congruence. Qed.
+
+Lemma own_cons t l : own (t :: l) = push t (own l). Proof. reflexivity. Qed.
+
 Section Proofs.
   Variable assign : nat -> outcome.
-  Notation drive := (drive assign).
-  Notation fire := (fire assign).
-  Notation sync := (sync assign).
+  Variable canc : nat -> cbeh.
+  Notation drive := (drive assign canc).
+  Notation fire := (fire assign canc).
+  Notation cancel := (cancel assign canc).
+  Notation step := (step assign canc).
 
-  (** the synchronous continuation of a (possibly suspended) execution *)
-  Definition sync_of (p : status * world) : outcome * list obs :=
-    match fst p with
-    | Finished r => (r, seen (snd p))
-    | Suspended d k => sync (GYieldD d k) (consumed (snd p)) (seen (snd p))
-    end.
+  (** ---- forward invariants: a cancelled Deferred has fired; a suspended driver waits on an unfired one ---- *)
+  Definition WF (p : status * world) : Prop :=
+    (forall d, In d (cancelled (snd p)) -> In d (fired (snd p))) /\
+    match fst p with Suspended d _ => ~ In d (fired (snd p)) | Finished _ => True end.
 
-  Lemma drive_sync g : forall w, sync_of (drive g w) = sync g (consumed w) (seen w).
-  Proof.
-    induction g as [v|e|d k IH|v k IH|t g IH]; intros w; cbn [Model.drive Model.sync].
-    - reflexivity.
-    - reflexivity.
-    - destruct (mem d (fired w)).
-      + rewrite IH. reflexivity.
-      + reflexivity.
-    - apply IH.
-    - rewrite IH. reflexivity.
-  Qed.
-
-  Lemma fire_sync d p : sync_of (fire d p) = sync_of p.
-  Proof.
-    destruct p as [st w]. unfold Model.fire. destruct (mem d (fired w)); [reflexivity|].
-    destruct st as [r|d' k]; [reflexivity|].
-    destruct (Nat.eqb_spec d d') as [->|Hne]; [|reflexivity].
-    rewrite drive_sync. reflexivity.
-  Qed.
-
-  Lemma run_sync pre g sched : sync_of (run assign pre g sched) = sync g [] [].
-  Proof.
-    unfold run. assert (H : sync_of (start assign pre g) = sync g [] []) by (unfold start; rewrite drive_sync; reflexivity).
-    revert H. generalize (start assign pre g) as p. induction sched as [|d r IH]; intros p H; [exact H|].
-    cbn [fold_left]. apply IH. rewrite fire_sync. exact H.
-  Qed.
-
-  (** a suspended driver waits on a Deferred that has not fired; firing never un-fires *)
-  Definition waits_ok (p : status * world) : Prop :=
-    match fst p with Suspended d _ => mem d (fired (snd p)) = false | Finished _ => True end.
-
-  Lemma drive_fired g : forall w, fired (snd (drive g w)) = fired w /\ waits_ok (drive g w).
+  Lemma drive_world g : forall w,
+    fired (snd (drive g w)) = fired w /\ cancelled (snd (drive g w)) = cancelled w /\
+    match fst (drive g w) with Suspended d _ => ~ In d (fired w) | Finished _ => True end.
   Proof.
     induction g as [v|e|d k IH|v k IH|t g IH]; intros w; cbn [Model.drive].
-    - split; [reflexivity | exact I].
-    - split; [reflexivity | exact I].
-    - destruct (mem d (fired w)) eqn:E.
-      + destruct (IH (current assign w d) (consume d w)) as [H1 H2]. split; [exact H1 | exact H2].
-      + split; [reflexivity | exact E].
+    - cbn. auto.
+    - cbn. auto.
+    - destruct (mem d (fired w)) eqn:E; [apply (IH _ (consume d w))|]. cbn. apply mem_false in E. auto.
     - apply IH.
-    - destruct (IH (say t w)) as [H1 H2]. split; [exact H1 | exact H2].
+    - apply (IH (say t w)).
   Qed.
 
-  Lemma mem_In i l : mem i l = true <-> In i l.
-  Proof.
-    unfold mem. rewrite existsb_exists. split.
-    - intros [j [Hj E]]. apply Nat.eqb_eq in E. subst. exact Hj.
-    - intros H. exists i. split; [exact H | apply Nat.eqb_refl].
-  Qed.
+  Lemma drive_WF g w : (forall d, In d (cancelled w) -> In d (fired w)) -> WF (drive g w).
+  Proof. intros H. destruct (drive_world g w) as (E1 & E2 & E3). unfold WF. rewrite E1, E2. auto. Qed.
 
-  Lemma fire_fired d p : waits_ok p ->
-    waits_ok (fire d p) /\ (forall x, In x (fired (snd p)) \/ x = d -> In x (fired (snd (fire d p)))).
+  Lemma step_WF p o : WF p -> WF (step p o).
   Proof.
-    destruct p as [st w]. unfold Model.fire, waits_ok. cbn [fst snd]. intros Hw.
-    destruct (mem d (fired w)) eqn:E.
-    - split; [exact Hw|]. intros x [Hx| ->]; [exact Hx | apply mem_In; exact E].
-    - destruct st as [r|d' k].
-      + cbn [fst snd fired]. split; [exact I|]. intros x [Hx| ->]; [right; exact Hx | left; reflexivity].
+    destruct p as [st w]. intros [H1 H2]. cbn [fst snd] in *. destruct o as [d|]; cbn [Model.step].
+    - unfold Model.fire. destruct (mem d (fired w)) eqn:Ef; [split; assumption|].
+      destruct st as [r|d' k].
+      + split; cbn; auto.
       + destruct (Nat.eqb_spec d d') as [->|Hne].
-        * match goal with |- context [Model.drive assign ?g ?w0] => destruct (drive_fired g w0) as [H1 H2] end.
-          split; [exact H2|]. rewrite H1. cbn [fired consume]. intros x [Hx| ->]; [right; exact Hx | left; reflexivity].
-        * cbn [fst snd fired]. split.
-          -- unfold mem in *. cbn [existsb]. rewrite Hw. destruct (Nat.eqb_spec d' d); [congruence | reflexivity].
-          -- intros x [Hx| ->]; [right; exact Hx | left; reflexivity].
+        * apply drive_WF. cbn. auto.
+        * split; cbn; [auto|]. intros [H|H]; [congruence | contradiction].
+    - unfold Model.cancel. destruct st as [r|d k]; [split; assumption|].
+      apply drive_WF. cbn. intros x [<-|Hx]; auto.
   Qed.
 
-  Lemma run_fired pre g sched :
-    waits_ok (run assign pre g sched) /\
-    forall x, In x pre \/ In x sched -> In x (fired (snd (run assign pre g sched))).
+  (** ---- [c]: the Deferreds that are fired by their canceller in this execution ---- *)
+  Variable c : list nat.
+  Notation out := (eff assign canc c).
+
+  (** the world agrees with [c] about the Deferreds that have fired: they are in [c] iff they were cancelled *)
+  Definition agrees (w : world) : Prop :=
+    (forall d, In d (cancelled w) -> In d c) /\ (forall d, In d c -> In d (fired w) -> In d (cancelled w)).
+
+  Definition sync_of (p : status * world) : outcome * list obs :=
+    match fst p with
+    | Finished r => (r, own (seen (snd p)))
+    | Suspended d k => sync out (GYieldD d k) (consumed (snd p)) (own (seen (snd p)))
+    end.
+
+  Lemma eff_agrees w d : agrees w -> In d (fired w) -> eff assign canc (cancelled w) d = out d.
+  Proof.
+    intros (A1 & A2) Hf. unfold eff.
+    destruct (mem d (cancelled w)) eqn:E1, (mem d c) eqn:E2; try reflexivity.
+    - apply mem_In in E1. apply A1 in E1. apply mem_In in E1. congruence.
+    - apply mem_In in E2. apply (A2 d E2) in Hf. apply mem_In in Hf. congruence.
+  Qed.
+
+  Lemma drive_sync g : forall w, agrees w -> sync_of (drive g w) = sync out g (consumed w) (own (seen w)).
+  Proof.
+    induction g as [v|e|d k IH|v k IH|t g IH]; intros w Ha; cbn [Model.drive Model.sync].
+    - reflexivity.
+    - reflexivity.
+    - destruct (mem d (fired w)) eqn:Ef.
+      + rewrite IH by exact Ha. apply mem_In in Ef. unfold current. rewrite (eff_agrees w d Ha Ef). reflexivity.
+      + reflexivity.
+    - apply IH. exact Ha.
+    - rewrite IH by exact Ha. reflexivity.
+  Qed.
+
+  (** one step, read backwards: if the world after the step agrees with [c], so did the world before, and the
+      synchronous continuation is the same *)
+  Lemma step_back p o : WF p -> agrees (snd (step p o)) -> agrees (snd p) /\ sync_of (step p o) = sync_of p.
+  Proof.
+    destruct p as [st w]. intros [W1 W2]. cbn [fst snd] in *. destruct o as [d|]; cbn [Model.step].
+    - (* a Deferred fires *)
+      unfold Model.fire. destruct (mem d (fired w)) eqn:Ef; [auto|]. apply mem_false in Ef.
+      set (w1 := mkw (d :: fired w) (cancelled w) (consumed w) (seen w)).
+      assert (Hback : agrees w1 -> agrees w /\ ~ In d c).
+      { intros (A1 & A2). cbn in *. split; [split; [exact A1|]|].
+        - intros x Hx Hf. apply A2; [exact Hx | right; exact Hf].
+        - intros Hc. apply Ef, W1, A2; [exact Hc | left; reflexivity]. }
+      destruct st as [r|d' k].
+      + cbn [snd]. intros Ha. destruct (Hback Ha) as [H _]. split; [exact H | reflexivity].
+      + destruct (Nat.eqb_spec d d') as [->|Hne].
+        * destruct (drive_world (k (current assign canc w1 d')) (consume d' w1)) as (E1 & E2 & _).
+          intros (A1 & A2). rewrite E1, E2 in *.
+          assert (Ha1 : agrees w1) by (split; assumption). destruct (Hback Ha1) as [Ha Hnc].
+          split; [exact Ha|]. rewrite drive_sync by exact Ha1.
+          unfold sync_of. cbn [fst snd Model.sync consume consumed seen w1].
+          unfold current, eff. cbn [consumed cancelled w1].
+          assert (Hn1 : mem d' (cancelled w) = false) by (apply mem_false; intros H; apply Ef, W1, H).
+          assert (Hn2 : mem d' c = false) by (apply mem_false; exact Hnc).
+          rewrite Hn1, Hn2. reflexivity.
+        * cbn [snd]. intros Ha. destruct (Hback Ha) as [H _]. split; [exact H | reflexivity].
+    - (* the returned Deferred is cancelled *)
+      unfold Model.cancel. destruct st as [r|d k]; [auto|].
+      set (w1 := mkw (d :: fired w) (d :: cancelled w) (consumed w) (Cancelled d :: seen w)).
+      destruct (drive_world (k (current assign canc w1 d)) (consume d w1)) as (E1 & E2 & _).
+      intros (A1 & A2). rewrite E1, E2 in *. cbn [fired cancelled consume w1] in *.
+      assert (Ha1 : agrees w1) by (split; assumption).
+      assert (Hc : In d c) by (apply A1; left; reflexivity).
+      split.
+      + split.
+        * intros x Hx. apply A1. right. exact Hx.
+        * intros x Hx Hf. destruct (A2 x Hx (or_intror Hf)) as [<-|H]; [contradiction | exact H].
+      + rewrite drive_sync by exact Ha1. unfold sync_of. cbn [fst snd Model.sync consume consumed seen w1].
+        rewrite own_cons. cbn [push]. unfold current, eff. cbn [consumed cancelled w1].
+        assert (H1 : mem d (d :: cancelled w) = true) by (apply mem_In; left; reflexivity).
+        assert (H2 : mem d c = true) by (apply mem_In; exact Hc).
+        rewrite H1, H2. reflexivity.
+  Qed.
+
+  Lemma run_back ops : forall p, WF p -> agrees (snd (fold_left step ops p)) ->
+    agrees (snd p) /\ sync_of (fold_left step ops p) = sync_of p.
+  Proof.
+    induction ops as [|o r IH]; intros p HW Ha; [auto|]. cbn [fold_left] in *.
+    destruct (IH (step p o) (step_WF p o HW) Ha) as [Ha1 Hs].
+    destruct (step_back p o HW Ha1) as [Ha0 Hs0]. split; [exact Ha0 | congruence].
+  Qed.
+
+  Lemma run_sync pre g sched : agrees (snd (run assign canc pre g sched)) ->
+    sync_of (run assign canc pre g sched) = sync out g [] [].
+  Proof.
+    intros Ha. unfold run in *.
+    assert (HW : WF (start assign canc pre g)) by (apply drive_WF; intros d []).
+    destruct (run_back sched _ HW Ha) as [Ha0 Hs]. rewrite Hs. unfold start in *.
+    destruct (drive_world g (mkw pre [] [] [])) as (E1 & E2 & _).
+    rewrite drive_sync; [reflexivity|]. unfold agrees in *. rewrite E1, E2 in Ha0. exact Ha0.
+  Qed.
+End Proofs.
+
+(** the final world agrees with its own list of cancelled Deferreds *)
+Lemma agrees_self w : agrees (cancelled w) w.
+Proof. split; auto. Qed.
+
+Section Proofs2.
+  Variable assign : nat -> outcome.
+  Variable canc : nat -> cbeh.
+
+  Lemma run_WF pre g sched : WF (run assign canc pre g sched).
+  Proof.
+    unfold run. assert (H : WF (start assign canc pre g)) by (apply drive_WF; intros d []).
+    revert H. generalize (start assign canc pre g) as p. induction sched as [|o r IH]; intros p H; [exact H|].
+    cbn [fold_left]. apply IH, step_WF, H.
+  Qed.
+
+  (** everything in the schedule that fires has fired *)
+  Lemma step_fired p o : forall x, In x (fired (snd p)) \/ o = SFire x -> In x (fired (snd (step assign canc p o))).
+  Proof.
+    destruct p as [st w]. intros x Hx. destruct o as [d|]; cbn [Model.step snd].
+    - unfold Model.fire. destruct (mem d (fired w)) eqn:E.
+      + destruct Hx as [Hx|[= ->]]; [exact Hx | apply mem_In; exact E].
+      + assert (H1 : In x (d :: fired w)) by (destruct Hx as [Hx|[= ->]]; [right; exact Hx | left; reflexivity]).
+        destruct st as [r|d' k]; [exact H1|]. destruct (Nat.eqb d d'); [|exact H1].
+        match goal with |- context [Model.drive assign canc ?g ?w0] => destruct (drive_world assign canc g w0) as (E1 & _) end.
+        rewrite E1. exact H1.
+    - destruct Hx as [Hx|Hx]; [|discriminate]. unfold Model.cancel. destruct st as [r|d k]; [exact Hx|].
+      match goal with |- context [Model.drive assign canc ?g ?w0] => destruct (drive_world assign canc g w0) as (E1 & _) end.
+      rewrite E1. right. exact Hx.
+  Qed.
+
+  Lemma run_fired pre g sched : forall x, In x pre \/ In (SFire x) sched -> In x (fired (snd (run assign canc pre g sched))).
   Proof.
     unfold run.
-    assert (H : waits_ok (start assign pre g) /\ forall x, In x pre -> In x (fired (snd (start assign pre g)))).
-    { unfold start. destruct (drive_fired g (mkw pre [] [])) as [H1 H2]. split; [exact H2|]. rewrite H1. auto. }
-    revert H. generalize (start assign pre g) as p. revert pre.
-    induction sched as [|d r IH]; intros pre p [Hw Hp].
-    - split; [exact Hw|]. intros x [Hx|[]]. apply Hp. exact Hx.
-    - cbn [fold_left]. destruct (fire_fired d p Hw) as [Hw' Hp'].
-      destruct (IH (d :: pre) (fire d p)) as [H1 H2].
-      + split; [exact Hw'|]. intros x [ <- |Hx]; apply Hp'; [right; reflexivity | left; apply Hp; exact Hx].
-      + split; [exact H1|]. intros x [Hx|[ <- |Hx]]; apply H2; [left; right; exact Hx | left; left; reflexivity | right; exact Hx].
+    assert (H : forall x, In x pre -> In x (fired (snd (start assign canc pre g)))).
+    { intros x Hx. unfold start. destruct (drive_world assign canc g (mkw pre [] [] [])) as (E1 & _). rewrite E1. exact Hx. }
+    revert H. generalize (start assign canc pre g) as p. revert pre.
+    induction sched as [|o r IH]; intros pre p Hp x Hx.
+    - destruct Hx as [Hx|[]]. apply Hp, Hx.
+    - cbn [fold_left]. apply (IH (match o with SFire d => d :: pre | SCancel => pre end)).
+      + intros y Hy. apply step_fired. destruct o as [d|]; [destruct Hy as [<-|Hy]; [right; reflexivity | left; apply Hp, Hy] | left; apply Hp, Hy].
+      + destruct Hx as [Hx|[Ho|Hx]].
+        * left. destruct o; [right|]; exact Hx.
+        * subst o. left. left. reflexivity.
+        * right. exact Hx.
   Qed.
 
-  (** once the result Deferred has fired, nothing changes it *)
-  Lemma fire_finished d r w : fst (fire d (Finished r, w)) = Finished r /\ seen (snd (fire d (Finished r, w))) = seen w.
-  Proof. unfold Model.fire. destruct (mem d (fired w)); split; reflexivity. Qed.
-End Proofs.
+  (** once finished, nothing changes the outcome or what the function observed *)
+  Lemma step_finished o r w :
+    fst (step assign canc (Finished r, w) o) = Finished r /\
+    own (seen (snd (step assign canc (Finished r, w) o))) = own (seen w) /\
+    cancelled (snd (step assign canc (Finished r, w) o)) = cancelled w.
+  Proof. destruct o as [d|]; cbn; [destruct (mem d (fired w))|]; repeat split; reflexivity. Qed.
+
+  (** cancelling while suspended on d cancels exactly d (and resumes the function with d's outcome) *)
+  Lemma cancel_exactly d k w :
+    cancelled (snd (cancel assign canc (Suspended d k, w))) = d :: cancelled w /\
+    cancel assign canc (Suspended d k, w) =
+      drive assign canc (k (if mem d (consumed w) then Val VNone else cancel_outcome (canc d)))
+            (mkw (d :: fired w) (d :: cancelled w) (d :: consumed w) (Cancelled d :: seen w)).
+  Proof.
+    unfold Model.cancel.
+    match goal with |- context [Model.drive assign canc ?g ?w0] => destruct (drive_world assign canc g w0) as (_ & E2 & _) end.
+    split; [rewrite E2; reflexivity|]. unfold current, eff, consume. cbn [consumed cancelled fired seen].
+    assert (H : mem d (d :: cancelled w) = true) by (apply mem_In; left; reflexivity). rewrite H. reflexivity.
+  Qed.
+End Proofs2.
+
+(** a Deferred is cancelled at most once *)
+Lemma run_cancel_nodup assign canc pre g sched : NoDup (cancelled (snd (run assign canc pre g sched))).
+Proof.
+  unfold run.
+  assert (H : WF (start assign canc pre g) /\ NoDup (cancelled (snd (start assign canc pre g)))).
+  { split; [apply drive_WF; intros d []|]. unfold start.
+    destruct (drive_world assign canc g (mkw pre [] [] [])) as (_ & E2 & _). rewrite E2. constructor. }
+  revert H. generalize (start assign canc pre g) as p. induction sched as [|o r IH]; intros p [HW Hn]; [exact Hn|].
+  cbn [fold_left]. apply IH. split; [apply step_WF, HW|].
+  destruct p as [st w]. destruct HW as [W1 W2]. cbn [fst snd] in *. destruct o as [d|]; cbn [step].
+  - unfold fire. destruct (mem d (fired w)); [exact Hn|]. destruct st as [r0|d' k]; [exact Hn|].
+    destruct (Nat.eqb d d'); [|exact Hn].
+    match goal with |- context [drive assign canc ?g0 ?w0] => destruct (drive_world assign canc g0 w0) as (_ & E2 & _) end.
+    rewrite E2. exact Hn.
+  - unfold cancel. destruct st as [r0|d k]; [exact Hn|].
+    match goal with |- context [drive assign canc ?g0 ?w0] => destruct (drive_world assign canc g0 w0) as (_ & E2 & _) end.
+    rewrite E2. cbn. constructor; [|exact Hn]. intros Hin. apply W2, W1, Hin.
+Qed.
